@@ -51,7 +51,7 @@ def c03(prop, tier):
     model(ck)
     inp = {'property': prop, 'seed': SEED, 'lists': ['explicit', 'wildcard', 'empty', 'creator'],
            'routes': ['local', 'announce', 'exchange', 'manual', 'ancestor'],
-           'classes': ['honest', 'nonwriter', 'nonwriter-other-log', 'nonwriter-respelled-log', 'foreign-key-sig-respelled', 'copied-id', 'copied-identity-block', 'foreign-key-sig', 'foreign-type'],
+           'classes': ['honest', 'nonwriter', 'nonwriter-other-log', 'nonwriter-respelled-log', 'foreign-key-sig-respelled', 'copied-id', 'copied-id-of-receiver', 'copied-identity-block', 'foreign-key-sig', 'foreign-type'],
            'stores': ['kv', 'log', 'doc']}
     if not thorough:
         inp['lists'] = ['explicit', 'wildcard', 'empty']
